@@ -200,6 +200,13 @@ def cases(draw, path, module=None, algo=None):
     kws = [[n, draw(structures())] for n in draw(st.lists(st.sampled_from(['p', 'q', 'r', 'tol', 'deep']), unique=True, max_size=2))]      # 'tol' / 'deep': names klepto uses itself
     if not args and not kws:
         args = [draw(floatspecs())]
+    # a one-shot iterator passed at top level (positionally or by keyword): rounding must leave it alone - the function receives it unconsumed
+    if draw(st.integers(0, 7)) == 0:
+        it = ['Z', [draw(floatspecs()) for _ in range(draw(st.integers(1, 3)))]]
+        if draw(st.booleans()):
+            kws = [kv for kv in kws if kv[0] != 'r'] + [['r', it]]
+        else:
+            args = args + [it]
     # the SAME container object reachable twice in one call - f(p, p), f([p, p]), f(p, q=p): each occurrence is rounded
     alias = None
     if args and args[0][0] in 'tld' and draw(st.integers(0, 4)) == 0:
@@ -397,6 +404,8 @@ def run_case(case):
                     out.append(Discrepancy('C12/%s/function-did-not-receive-original-arguments' % tag,
                                            'tol=%r deep=%r: passed %r %r, function received %r %r' % (tol, deep, a1, k1, ra, rk)))
             multiset = any(has_multiset(x) for x in specs + list(case['args2']) + [v for _, v in case['kws2']])
+            if any(sp[0] == 'Z' for sp in specs):
+                multiset = True       # two iterator objects are neither equal nor unequal by value: whether the calls share an entry says nothing about rounding
             if multiset:
                 classes.append('sharing_not_asserted_sets')   # repr order of a set with >1 element is not a rounding matter
             pickled_identity = bool(case.get('alias')) and case['keymap']['cls'] == 'picklemap' and case['keymap'].get('opt') is not None
@@ -445,6 +454,12 @@ def run_case(case):
                                                    'tol=%r: after a call with %r %r, passed %r %r, function received %r %r, reference %r %r' % (tol, a1, k1, a2, k2, ra, rk, ea, ek)))
     except Exception as e:
         out.append(Discrepancy('C12/%s/valid-call-raised/%s' % (tag, H.exc_sig(e)), 'tol=%r deep=%r args=%r kwds=%r: %r' % (tol, deep, a1, k1, e)))
+    for sp, obj in list(zip(case['args'], a1)) + [(v, k1[n]) for n, v in case['kws'] if n in k1]:
+        if sp[0] == 'Z':
+            classes.append('iterator_argument')
+            left = len(list(obj))
+            if left != len(sp[1]) and not out:
+                out.append(Discrepancy('C12/%s/iterator-argument-consumed' % tag, 'tol=%r deep=%r: an iterator over %d items passed as an argument has %d left afterwards' % (tol, deep, len(sp[1]), left)))
     nt = None
     straddle = case['nudged'] is not None and not shares
     if maxdepth >= 1 or (tol is not None and tol < 0) or nonstr or straddle:
@@ -461,6 +476,6 @@ def run_case(case):
     return out, nt, classes
 
 
-REQUIRED_CLASSES = ['namedtuple_or_range_argument', 'same_object_twice', 'second_call_is_typed_twin', 'tol:16', 'tol:20', 'dict_subclass', 'pair_shares', 'pair_differs', 'straddles_boundary', 'nonstr_dict_key', 'floatdepth:1', 'floatdepth:2', 'tol:-1', 'tol:None', 'tol:0',
+REQUIRED_CLASSES = ['iterator_argument', 'namedtuple_or_range_argument', 'same_object_twice', 'second_call_is_typed_twin', 'tol:16', 'tol:20', 'dict_subclass', 'pair_shares', 'pair_differs', 'straddles_boundary', 'nonstr_dict_key', 'floatdepth:1', 'floatdepth:2', 'tol:-1', 'tol:None', 'tol:0',
                     'deep:True', 'deep:False', 'path:standalone', 'path:call', 'path:key', 'path:keygen']
 TRIGGERS = {}
